@@ -168,13 +168,13 @@ def sym_H_hermitian_needs_symmetric_h():
     return same(l, r), "canary: Hermitian with asymmetric h"
 
 
-def _native_scf(Nspin=1, xc="lda,pw", s=(7, 5, 5)):
+def _native_scf(Nspin=1, xc="lda,pw", s=(7, 5, 5), atom="He"):
     """Small converged-enough SCF on an ODD grid (on even grids with weight on the Nyquist plane the effective potential is
     not real - known finding - so the Hermiticity / derivative contracts do not apply there)."""
     import eminus
     from eminus import SCF
 
-    at = native_atoms(Nspin=Nspin, s=s)
+    at = native_atoms(Nspin=Nspin, s=s, atom=atom)
     eminus.config.verbose = "critical"
     scf = SCF(at, xc=xc, opt={"sd": 1}, verbose="critical")
     scf.run()
@@ -184,7 +184,8 @@ def _native_scf(Nspin=1, xc="lda,pw", s=(7, 5, 5)):
 def nat_H_hermitian(rng):
     from eminus.dft import H as Hn, H_precompute
 
-    scf, at = _native_scf(Nspin=2)
+    # Ca: s and p channels with two projectors each, one d projector (off-diagonal couplings in l = 0 and l = 1)
+    scf, at = _native_scf(Nspin=2, atom="Ca")
     W = [rnd(rng, 2, len(at.Gk2c[ik]), at.occ.Nstate) for ik in range(at.kpts.Nk)]
     dn, phi, vxc, vs, vt = H_precompute(scf, scf.W)
     e = 0
